@@ -100,6 +100,7 @@ fn over_limit_values(run: &Run) {
 }
 
 pub fn run(run: &Run) {
+    long_histories(run, run.thorough());
     over_limit_values(run);
     for sc in scenarios(run.thorough()) {
         sample_alphabet(run, &sc);
